@@ -35,7 +35,7 @@ func (t *traceWriter) bytes() []byte {
 
 type stats struct {
 	scheds, ops, calls int
-	byFamily          map[string]int
+	byFamily           map[string]int
 }
 
 func emit(out *bufio.Writer, mon *bufio.Writer, id string, s SchedCfg, c *Cluster, trace []byte, second []byte) {
